@@ -50,6 +50,7 @@ GenNext ==
        \/ (UnnamedPurge /\ \E k \in Keys :
             PurgeStart(p, k, SeqOfDisp) /\ Log([a |-> "PurgeStart", p |-> p, k |-> k, d |-> ""]))
        \/ PurgeRemove(p) /\ Log([a |-> "PurgeRemove", p |-> p])
+       \/ PurgeFence(p) /\ Log([a |-> "PurgeFence", p |-> p])
        \/ \E ok \in BOOLEAN : PurgeDelete(p, ok) /\ Log([a |-> "PurgeDelete", p |-> p, ok |-> ok])
   \/ \E j \in Jumps : Tick(j) /\ Log([a |-> "Tick", j |-> j])
   \/ \E d \in Disp, k \in Keys : StoreDrop(d, k) /\ Log([a |-> "StoreDrop", d |-> d, k |-> k])
